@@ -89,6 +89,12 @@ func (q qiEncoder) value(v reflect.Value) error {
 	case reflect.Uint64, reflect.Uint:
 		return basic.WriteUint64(v.Uint(), q.w)
 	case reflect.Float32:
+		// v.Float() widens to float64, which turns a signalling NaN
+		// into a quiet one: keep the bits.
+		if v.CanInterface() {
+			f := v.Convert(reflect.TypeOf(float32(0))).Interface()
+			return basic.WriteFloat32(f.(float32), q.w)
+		}
 		return basic.WriteFloat32(float32(v.Float()), q.w)
 	case reflect.Float64:
 		return basic.WriteFloat64(float64(v.Float()), q.w)
@@ -433,7 +439,9 @@ func (q qiDecoder) value(v reflect.Value) error {
 		if err != nil {
 			return err
 		}
-		v.SetFloat(float64(f))
+		// not SetFloat(float64(f)): the detour through float64
+		// turns a signalling NaN into a quiet one.
+		v.Set(reflect.ValueOf(f).Convert(v.Type()))
 	case reflect.Float64:
 		f, err := basic.ReadFloat64(q.r)
 		if err != nil {
